@@ -34,6 +34,36 @@ def mc_compile(ck, slice_, maxlen, maxsteps, budget, invs, expect_violation=None
     return cases, n[0]
 
 
+def mechanism_binding_compile(ck, cases):
+    """binding diagnostics (never a verdict): block count, start block, restored labels and pending return-jump
+    target read off the emitted source, against HyCompile evaluated with the code's own budget"""
+    import subprocess
+    work = tmpdir("compdump")
+    cpath = os.path.join(work, "cases.json")
+    M.write_cases(cpath, [{"prog": c["prog"]} for c in cases])
+    out = os.path.join(work, "dump.ndjson")
+    try:
+        p = subprocess.run([M.HVEXEC, "compdump", "--in", cpath, "--out", out], stdin=subprocess.DEVNULL, timeout=300)
+        if p.returncode != 0:
+            raise RuntimeError("status %s" % p.returncode)
+    except Exception as ex:
+        ck.cov["binding_drift"].append("mechanism dump of build_source() not available (%s)" % ex)
+        return
+    r = tlc("Trace_HyCompile", "Trace_HyCompile.cfg", env={"TRACE": out}, workers=1, timeout=1800, xss="1g", xmx="4g")
+    n = sum(1 for l in open(out) if l.strip())
+    end = [t for t in r.tuples if t[0] == "TRACE-END"]
+    if not end or end[0][2] != n:
+        ck.cov["binding_drift"].append("mechanism trace not consumed: %s" % (r.error,))
+        return
+    ck.add_tlc(r)
+    drifts = [t for t in r.tuples if t[0] == "DRIFT"]
+    for t in drifts[:10]:
+        ck.cov["binding_drift"].append("build_source level %s: %s :: program %s" % (t[2], t[3], M.prog_text(json.loads(t[4]))[:200]))
+    ck.cov["vacuity"]["mechanism_dumps_compared"] = n
+    ck.cov["vacuity"]["mechanism_drifts"] = len(drifts)
+    log("mechanism binding: %d dumps compared with HyCompile, %d drift(s)" % (n, len(drifts)))
+
+
 def classify_c03(e, run, exp):
     if run is None:
         return None
@@ -154,6 +184,7 @@ def check_c03(pid, tier, seed, replay):
     obs = M.run_obs(ck, cpath2, "c03_RJ", levels="", clevels="0,2", bound=400, timeout_ms=400)
     M.validate_traces(ck, obs, 14, classify_c03, "T-retjump")
     progs += len(rj)
+    mechanism_binding_compile(ck, tc[:300 if quick else 3000] + rj[:100 if quick else 1000])
     ck.cov["programs"] = progs * 3
     ck.cov["disagreements_checked"] = progs * 3
     ck.cov["vacuity"]["T_programs"] = len(tc)
